@@ -37,8 +37,10 @@ class ClearkeyHandler(RequestHandlerBase):
         req = flask.request.json
         try:
             kids = req["kids"]
-        except KeyError:
+        except (KeyError, TypeError):
             return jsonify('kids property missing', 400)
+        if not isinstance(kids, list) or not all(isinstance(k, str) for k in kids):
+            return jsonify('kids must be a list of base64url strings', 400)
         try:
             kids = list(map(self.base64url_decode, kids))
             kids = [to_hex(k) for k in kids]
